@@ -49,7 +49,7 @@ class C08(Prop):
     coq_case_type = "C08.case"
     coq_check = "C08.check"
     rule = ("well-formed tables (all column kinds, NaN, +-inf, integer-valued and fractional numbers, integers, "
-            "microsecond datetimes with and without NaT, zero rows, unicode text and names, both orientation flags): "
+            "microsecond and nanosecond datetimes (non-zero sub-microsecond part) with and without NaT, zero rows, unicode text and names, both orientation flags): "
             "table_to_json_data -> exact-type purity check -> json.dumps(allow_nan=False) when no infinities -> json.loads -> "
             "json_data_to_table -> comparison with the original; the JsonData of the readers is covered by C07; "
             "non-trivial = at least one data row")
@@ -66,6 +66,15 @@ class C08(Prop):
                 for c in spec["cols"]:
                     if c["kind"] == "datetime":
                         c["values"] = [v if "ts" in v else {"ts": "2001-02-03T04:05:06"} for v in c["values"]]
+            if i % 4 == 1:
+                # nanosecond resolution with a non-zero sub-microsecond part (str(timestamp) carries nine digits)
+                import pandas as pd
+                for c in spec["cols"]:
+                    if c["kind"] == "datetime":
+                        c["res"] = "ns"
+                        c["values"] = [v if "ts" not in v else
+                                       {"ts": (pd.Timestamp(v["ts"]) + pd.Timedelta(rng.choice([1, 999, rng.randint(1, 999)]), "ns")).isoformat()}
+                                       for v in c["values"]]
             if i % 5 == 1:
                 # a row in which every value is missing / empty (numbers and text only)
                 spec = T.gen_table(rng, sep="\x00", bigint=False, odd=True, kinds=["float", "text", "float"], min_cols=1)
